@@ -52,6 +52,16 @@ def scenario(name):
         y = reorgrun.make_branch(long_, 4, ['replay', 'new', 'new', 'new', 'old', 'cb'], b'Y', a)
         return None, {}, [('chain', a.blocks), ('start',), ('chain_at', 100, y.blocks)], \
             [a.blocks, y.blocks]
+    if name == 'truncated-block':
+        # two blocks arrive at once; the file of the second one is short (its last transaction
+        # is cut): processing it fails part-way.  The stop may come at any moment around that.
+        import copy
+        bad = copy.copy(ext2.blocks[-1])
+        bad.raw = bad.raw[:-7]
+        return base.blocks, {7: False}, [('chain', ext2.blocks[:-1] + [bad]), ('poll',)], [ext2.blocks]
+    if name == 'fault-in-history-batch':
+        # a write error while the history batch of the next flush is being filled
+        return base.blocks, {}, [('fault', 1, 1), ('chain', ext2.blocks), ('poll',)], [ext2.blocks]
     if name == 'idle':
         return base.blocks, {}, [('poll',), ('poll',)], [base.blocks]
     if name.startswith('slow-daemon:'):
@@ -64,7 +74,10 @@ def scenario(name):
 
 SHAPES = ['initial-sync', 'new-blocks', 'two-at-once', 'natural-reorg', 'forced-reorg', 'idle',
           'sync-fork', 'slow-daemon:initial-sync', 'slow-daemon:two-at-once',
-          'slow-daemon:natural-reorg']
+          'slow-daemon:natural-reorg', 'truncated-block', 'fault-in-history-batch']
+# shapes whose environment is faulty: the processing task may end with that fault's exception
+# and unflushed work may be given up; the database left behind must still be exact
+FAULTY = ('truncated-block', 'fault-in-history-batch')
 
 
 def job_name(job):
@@ -148,6 +161,8 @@ class Exec:
                 w.daemon.set_chain(ev[1])
                 if ev[0] == 'rchain':
                     self.reorg_requested = True
+            elif ev[0] == 'fault':
+                self.m.stores.fault = (self.m.stores.batches_created + ev[1], ev[2])
             elif ev[0] == 'start':
                 w.start_sync()
                 self.started = True
@@ -230,11 +245,18 @@ def judge(ex, res, resume=False):
     failures = []
     final = list(w.daemon.best)
     orphans = [b for b in w.daemon.by_hash.values()]
+    if ex.shape in FAULTY:
+        # the next run meets a healthy environment
+        final, orphans = list(ex.chains[-1]), list(ex.chains[-1])
+        ex.m.stores.fault = None
     task = w.bp_task
     if not task.done():
         failures.append(('task-did-not-finish', {}))
     elif not task.cancelled() and task.exception() is not None:
-        failures.append(('task-raised', dict(error=repr(task.exception()))))
+        e = task.exception()
+        if not (ex.shape in FAULTY and ('truncated block file' in str(e) or
+                                        type(e).__name__ == 'InjectedFault')):
+            failures.append(('task-raised', dict(error=repr(e))))
     elif task.cancelled() and ex.done_before_cancel:
         failures.append(('task-ended-cancelled-after-work', {}))
     errs = [str(e.get('exception') or e.get('message')) for e in w.loop.errors]
@@ -272,7 +294,7 @@ def judge(ex, res, resume=False):
         before = ex.levels[:ex.levels_at_cancel]
         need = before[-1][1] if before else (ex.w0_height if hasattr(ex, 'w0_height') else -1)
         need -= sum(1 for kind, _h in ex.levels[ex.levels_at_cancel:] if kind == 'backup_block')
-        if h < need:
+        if h < need and ex.shape not in FAULTY:
             failures.append(('finished-work-lost', dict(stored=h, completed=need,
                                                         reorg_requested=ex.reorg_before_cancel)))
         res.distinct('stored_heights', (ex.shape, h))
